@@ -298,28 +298,30 @@ def r4_split(ctx):
         L, n = v
         ctx.check('R4.split', f'{s} total length kept', (L * n).eq(FL), key(f, f'product|{i}'),
                   'a returned (span length, span count) does not multiply back to the original fibre length', f'L={vkey(L)[:80]} n={vkey(n)[:80]}')
-        if n.eq(C(1)):
-            ok = pc and pc[-1][1] and ev.cond_info.get(pc[-1][0], (None,))[0] == 'lt' and ev.cond_info[pc[-1][0]][1].eq(FL) and \
-                ev.cond_info[pc[-1][0]][2].eq(stop)
-            ctx.check('R4.split', f'{s} kept only below the maximum', bool(ok), key(f, 'keep-guard'),
-                      'a fibre is left unsplit without testing fibre_length < maximum span length', f'{pc}')
-            continue
-        # which candidate? the larger one is  FL / int(FL // T)
-        nk = vkey(n)
-        if 'floordiv' in nk and not (n - C(1)).single_atom() is None and 'int(' in nk and (n - C(1)).single_atom() is not None \
-                and (n - C(1)).single_atom().name == 'int':
-            continue         # n_spans2 + 1 : the shorter candidate, always below the target length
-        # longer candidate: must be guarded by  L <= bounds.stop  (True) somewhere on its path
-        guarded = False
-        for ck, val in pc:
-            if not val:
-                continue
-            for sub_ck, (op, a, b) in ev.cond_info.items():
-                if sub_ck in ck and op == 'le' and isinstance(a, Rat) and a.eq(L) and isinstance(b, Rat) and b.eq(stop):
-                    guarded = True
-        ctx.check('R4.split', f'{s} longer candidate guarded', guarded, key(f, f'long-guard|{i}'),
-                  'the longer of the two candidate span lengths is returned without a test that it does not exceed the maximum '
-                  'span length: over-long spans survive the split', f'path {[(c[:60], v_) for c, v_ in pc]}')
+    # the decision itself: which (length, count) is returned under which outcome of the tests - compared, over every assignment of
+    # the test atoms, with the reference decision (unsplit below the maximum; the candidate that alone is within bounds; else the one
+    # closer to the target provided the longer one does not exceed the maximum; else the shorter one). Guard clauses, elif chains,
+    # named booleans and `in_bounds1 != in_bounds2` forms all give the same table (gscan/casedomain.py)
+    from .common import through_locals
+    from ..casedomain import same_decisions
+    p0, p1, p2 = f.params[:3]
+    spec = ast.parse(f'''
+def spec({p0}, {p1}, {p2}):
+    if {p0} < {p1}.stop:
+        return ({p0}, 1)
+    if {p1}.start <= {p0} / (int({p0} // {p2}) + 1) <= {p1}.stop and not ({p1}.start <= {p0} / int({p0} // {p2}) <= {p1}.stop):
+        return ({p0} / (int({p0} // {p2}) + 1), int({p0} // {p2}) + 1)
+    if {p1}.start <= {p0} / int({p0} // {p2}) <= {p1}.stop and not ({p1}.start <= {p0} / (int({p0} // {p2}) + 1) <= {p1}.stop):
+        return ({p0} / int({p0} // {p2}), int({p0} // {p2}))
+    if {p0} / int({p0} // {p2}) - {p2} <= {p2} - {p0} / (int({p0} // {p2}) + 1) and {p0} / int({p0} // {p2}) <= {p1}.stop:
+        return ({p0} / int({p0} // {p2}), int({p0} // {p2}))
+    return ({p0} / (int({p0} // {p2}) + 1), int({p0} // {p2}) + 1)
+''').body[0]
+    same, diff = same_decisions(through_locals(f.node, local_defs(f.node)), spec)
+    ctx.check('R4.split', f'{site(f)} decision', same, key(f, 'decision'),
+              'the choice between keeping the fibre, the shorter and the longer candidate span length is not the documented one: '
+              'e.g. the longer candidate returned without a test that it does not exceed the maximum span length (over-long spans '
+              'survive the split), or a fibre above the maximum left unsplit', diff[:300])
     sf = repo.func(NW, 'split_fiber')
     g = CFG(sf.node)
     fb = sf.params[1]
@@ -360,7 +362,7 @@ def r4_split(ctx):
               'per-span name')
     ok = bool(cnl) and [ast.unparse(a) for a in cnl[0].args] == [f'{fb}.params.length', sf.params[2], sf.params[3]]
     ctx.check('R4.split', f'{site(sf)} input', ok, key(sf, 'cnl-args'), 'the split is not computed from the fibre\'s own length, the bounds and the target')
-    ctx.need('R4.split', 9)
+    ctx.need('R4.split', 7)
 
 
 def r5_order(ctx):
